@@ -332,3 +332,5 @@ func shortFuncName(n string) string {
 	}
 	return strings.NewReplacer("(", "", ")", "", "*", "").Replace(n)
 }
+
+func verifRacyFields(names string) {}
